@@ -108,7 +108,8 @@ prop("C06", "nitrocheck",
           "Non-trivial: a cross-epoch-deleted version was collected while a newer snapshot was still open, or a non-FIFO close order occurred. Distinct = hash of the history. "
           "TestC06Conc (controlled scheduler, user memory in a quarter of the cases): rounds of 2-4 writers with delete-heavy scripts over 2-5 keys born in earlier epochs "
           "(several writers deleting the same key), snapshots, then the references are released by concurrently scheduled closer threads; oracle: per-round linearizability, "
-          "each snapshot retired once, after GC() the frontier is the last snapshot and node_count == live items, allocator clean after Close. Non-trivial there: two "
+          "each snapshot retired once, after GC() (half of the cases: after the final retiring Close alone, no explicit GC(); coarse schedules and hot-point plans as in C08) "
+          "the frontier is the last snapshot and node_count == live items, allocator clean after Close. Non-trivial there: two "
           "deletes of one key overlapped, or >=3 snapshots were released concurrently.",
      technique="model-based stateful property testing (epoch/collection-frontier model vs statistics and memory accounting)",
      design_ref="DESIGN.md §3 C06",
@@ -296,8 +297,11 @@ prop("C08", "conccheck",
      rule="1-3 snapshots with garbage; 2-4 controlled threads each owning 0-2 references per snapshot (one may be an outsider holding only the pointers) run drawn scripts of "
           "Open/Close/NewIterator, then release everything they own (iterators included); yields between the zero test and the increment in Open, after the decrement and at "
           "the retirement in Close, in GC, and at every node step of the snapshot lists. Oracle: porcupine per snapshot on a counter model (Open/NewIterator succeed iff "
-          "count > 0); after the run Open fails and NewIterator returns nil on every snapshot; every snapshot was retired exactly once (hook count); after GC(): "
-          "GetSnapshots() empty, GetLastGCSn() == last snapshot, statistics collapse to the live items (collector not wedged). Non-trivial: an Open/NewIterator overlapped "
+          "count > 0); after the run Open fails and NewIterator returns nil on every snapshot; every snapshot was retired exactly once (hook count); after GC() - or, in "
+          "half of the cases, after the last retiring Close of the history (run sequentially once every other call has returned; a fresh snapshot is created and "
+          "closed if the round released everything itself) and without an explicit GC() - GetSnapshots() is empty, GetLastGCSn() == last snapshot, statistics collapse "
+          "to the live items (collector not wedged). Schedules: PCT or random walk; half of the cases coarse (only nitro's own yield points and operation boundaries "
+          "are scheduling points); drawn hot-point plans park a thread for 0-30 steps on arrival at Open-tested / Close-retires / GC-before-try-lock / GC-pass-done. Non-trivial: an Open/NewIterator overlapped "
           "a Close of the same snapshot by another thread with a pre-emption. Distinct = hash of (ownership, scripts, schedule).",
      technique="generated scripts + schedules under a controlled scheduler, counter-model linearizability + retirement count + collector progress",
      design_ref="DESIGN.md §3 C08",
